@@ -1,16 +1,16 @@
-\* C15 quick: <= 3 editing calls on the empty changelog and on every changelog parsed from a text of
-\* <= 4 lines with <= 1 mutation (24 classes), both allow_empty_author settings
+\* C15 quick: <= 2 editing calls on the empty changelog and on every changelog parsed from a text of
+\* <= 3 lines with <= 1 mutation (5 representative classes), both allow_empty_author settings
 CONSTANTS
   Mode = "edit"
-  Classes <- AllClasses
+  Classes = {"Junk", "EndNoDetails", "EndOneSpace", "Vim", "HashComment"}
   AEAs = {TRUE, FALSE}
-  MaxLines = 4
+  MaxLines = 3
   MaxBlocks = 1
-  MaxBody = 2
-  MaxLead = 1
+  MaxBody = 1
+  MaxLead = 0
   MaxSep = 1
   Budget = 1
-  MaxEdits = 3
+  MaxEdits = 2
   Bug = "none"
   Emit = TRUE
 SPECIFICATION Spec
